@@ -16,7 +16,7 @@
 
   Only property theorems live here (C11_*); helper lemmas are in Lemmas/C11.lean.
 -/
-import GilVerif.Lemmas.C11
+import GilVerif.Lemmas.C11Safe
 
 namespace GilVerif.Props.C11
 open GilVerif.Model.C11 GilVerif.Lemmas.C11
@@ -177,8 +177,8 @@ theorem C11_valid_pnm_text_ok : isOk (decode .pnm .file (bytesOfHex 0x50320a3220
   never exhausted: each iteration consumes at least one input byte or ends the loop. So the number of iterations is
   at most the file length + 1; all other loops are counted by header fields bounded by the allocation they follow. -/
 
-/-- result of running an action: it is not `hang` -/
-def notHang {α} (r : Except Stop (α × St)) : Prop := ∀ w, r ≠ .error (.hang w)
+/-- result of running an action: its fuel did not run out -/
+def notHang {α} (r : Except Stop (α × St)) : Prop := ∀ w, r ≠ .error (.fuel w)
 
 private theorem notHang_of_NHs {α} {m : M α} {s : St} (h : NHs m s) : notHang (m s) := by
   intro w hw
@@ -215,7 +215,8 @@ private theorem safe_of_SE {m : M Img} {s : St} (hs : s.taint = none) (h : SEs I
       | .ok (img, s') => (match s'.taint with | none => Outcome.ok img | some why => Outcome.ub "inconsistent-data-accepted" why)
       | .error (.err k) => Outcome.err k
       | .error (.ub a w) => Outcome.ub a w
-      | .error (.hang w) => Outcome.hang w) = true := by
+      | .error (.hang w) => Outcome.hang w
+      | .error (.fuel w) => Outcome.hang ("fuel exhausted in " ++ w)) = true := by
   unfold SEs at h
   cases hm : m s with
   | error e =>
@@ -267,6 +268,44 @@ theorem C11_info_safe (f : Fmt) (dev : Dev) (bytes : List UInt8) (st : Settings)
 
 example : safe (decode .tga .stream [] { entry := .info, dst := .none, x0 := 0, y0 := 0, dw := 0, dh := 0, vw := 0, vh := 0 }) = true :=
   C11_info_safe .tga .stream [] _ rfl
+
+/-! ## the FULL statement for TARGA: every device, every byte string, every entry point, every setting
+
+  `ConvOk f st` only restricts the *converting* entry point to the destination types whose colour conversion the model
+  contains (TARGA / BMP: rgb8, rgba8; PNM: rgb8); for read_image / read_view / read_image_info / the scanline reader every
+  destination type and every (top_left, dim, view size) is covered, including all the ones the readers reject. -/
+
+private theorem safe_of_tr_nf {Q : Img → Prop} {m : M Img} {s : St} (hs : s.taint = none) (h1 : GoodT true Q s (m s)) (h2 : NFs m s) :
+    safe (match m s with
+      | .ok (img, s') => (match s'.taint with | none => Outcome.ok img | some why => Outcome.ub "inconsistent-data-accepted" why)
+      | .error (.err k) => Outcome.err k
+      | .error (.ub a w) => Outcome.ub a w
+      | .error (.hang w) => Outcome.hang w
+      | .error (.fuel w) => Outcome.hang ("fuel exhausted in " ++ w)) = true := by
+  cases hm : m s with
+  | error e =>
+    rw [hm] at h1
+    rcases h1 with ⟨k, hk⟩ | ⟨w, hw⟩
+    · subst hk; rfl
+    · subst hw; exact absurd hm (h2 w)
+  | ok p =>
+    obtain ⟨img, s'⟩ := p
+    rw [hm] at h1
+    have ht : s'.taint = none := (h1.1 rfl).trans hs
+    simp only [ht]
+    rfl
+
+/-- TARGA (raw and RLE, 24 and 32 bit, both origins, sub-rectangles, read_image_info / read_image / read_view /
+    read_and_convert_image / scanline reader, file and stream devices): for EVERY byte string the outcome is an image or a
+    C++ exception -- never undefined behaviour (no index, shift, signed overflow, assertion or allocation-size site of the
+    model is reachable), never a hang, never data made up from bytes that were not read. -/
+theorem C11_safe_targa (dev : Dev) (bytes : List UInt8) (st : Settings) (hconv : ConvOk .tga st) :
+    safe (decode .tga dev bytes st) = true := by
+  unfold decode runRaw
+  exact safe_of_tr_nf rfl (tr_tga_run st hconv _) (nf_tga_run st _)
+
+example : safe (decode .tga .sstream [0, 0, 10] { entry := .view, dst := .rgba8, x0 := 3, y0 := -1, dw := 7, dh := 0, vw := 2, vh := 2 }) = true :=
+  C11_safe_targa _ _ _ (by intro h; cases h)
 
 /-
   -- OPEN (not proven): C11_safe_partial : WF f bytes st → safe (decode f dev bytes st)
